@@ -112,7 +112,7 @@ def set_variants(das, lens):
 PRIM_PROPS = ['C01', 'C06', 'C07', 'C18']
 Q_LENS = [1, 2, 3, 5, 8, 9, 17]
 J('B.mem_prim_move.q', PRIM_PROPS, 'B', 'harness/memprim.c', sources=[PRIM], defines=['FN=4'], replay=True,
-  variants=move_variants([0, 1, 3], [1, 8, 64, -1, -8], Q_LENS), functions=['mem_prim_move'], no_std_checks=False,
+  variants=move_variants([0, 1, 3], [1, 8, 64, -1, -8], Q_LENS), functions=['mem_prim_move'], no_std_checks=False, quick_props=['C01', 'C06', 'C07'],
   bound='enumerated: dest alignment {0,1,3}, src-dest in {1,8,64,-1,-8}, len in %s; contents symbolic' % Q_LENS,
   timeout=600, tiers=('quick',))
 J('B.mem_prim_move.full', PRIM_PROPS, 'B', 'harness/memprim.c', sources=[PRIM], defines=['FN=4'], replay=True,
@@ -120,7 +120,7 @@ J('B.mem_prim_move.full', PRIM_PROPS, 'B', 'harness/memprim.c', sources=[PRIM], 
   functions=['mem_prim_move'], bound='enumerated: every dest alignment 0..7, src-dest in +-{1,2,3,7,8,9,16,64}, len 1..26; contents symbolic',
   timeout=900, tiers=('thorough',))
 J('B.mem_prim_set.q', PRIM_PROPS, 'B', 'harness/memprim.c', sources=[PRIM], defines=['FN=1'], replay=True,
-  variants=set_variants([0, 1, 3, 7], [0, 1, 2, 7, 8, 9, 16, 17, 31, 64, 65, 130, 137, 264]), object_bits=10, functions=['mem_prim_set'],
+  variants=set_variants([0, 1, 3, 7], [0, 1, 2, 7, 8, 9, 16, 17, 31, 64, 65, 130, 137, 264]), object_bits=10, functions=['mem_prim_set'], quick_props=['C06', 'C18'],
   bound='enumerated: dest alignment {0,1,3,7}, len in {0,1,2,7,8,9,16,17,31,64,65,130,137,264}; fill value and contents symbolic',
   timeout=600, tiers=('quick',))
 J('B.mem_prim_set.full', PRIM_PROPS, 'B', 'harness/memprim.c', sources=[PRIM], defines=['FN=1'], replay=True,
@@ -153,7 +153,8 @@ MEMFAM = [
 for fn, nm, path in MEMFAM:
     props = ['C01', 'C02', 'C05', 'C06'] + (['C18'] if fn <= 6 else ['C04', 'C07'])
     J('C.%s' % nm, props, 'C', 'harness/memfam.c', sources=[path, PRIM] + MEM_COMMON, defines=['FN=%d' % fn],
-      replace=PRIMS, replay=True, functions=['_%s_chk' % nm], timeout=600, mem_gb=8,
+      replace=PRIMS, replay=True, functions=['_%s_chk' % nm], timeout=900, mem_gb=8,
+      quick_props=(None if nm in ('memset_s', 'memcpy_s', 'memmove_s') else [p for p in props if p not in ('C01', 'C02')]),
       note='loop-free wrapper, all sizes symbolic (64-bit), arena of symbolic size <= 2^30; mem_prim_* replaced by contracts (include/prim_contracts.h) which are checked bounded by B.mem_prim_*',
       assumptions=['callee contracts of mem_prim_set*/mem_prim_move* (prim_contracts.h) are checked only bounded, by enumeration (jobs B.mem_prim_*)',
                    'C18: compilers do not elide stores that precede a full memory barrier (or are made by explicit_bzero); the barrier intrinsic is given a ghost body'])
@@ -195,7 +196,7 @@ for fn, nm, files in QFAM:
 # ---- C14: tokenizer call sequences
 for nm, path, wide in (('strtok_s', 'src/str/strtok_s.c', False), ('wcstok_s', 'src/wchar/wcstok_s.c', True)):
     J('B.%s.seq' % nm, ['C14', 'C01', 'C02', 'C05'], 'B', 'harness/tokfam.c', sources=[path] + WCS_COMMON,
-      defines=(['N=2', 'DL=2', 'K=4', 'WIDE'] if wide else ['N=3', 'DL=2', 'K=5']), unwind=8, object_bits=10, replay=True,
+      defines=(['N=2', 'DL=2', 'K=4', 'WIDE'] if wide else ['N=3', 'DL=2', 'K=5']), unwind=8, object_bits=10, replay=True, quick_props=['C14'],
       functions=['_%s_chk' % nm], timeout=1200, tiers=('quick',),
       bound='strings of at most 4 elements, two delimiter sets of <= 2 characters chosen per call, 5 calls')
     J('B.%s.seq5' % nm, ['C14', 'C01', 'C02', 'C05'], 'B', 'harness/tokfam.c', sources=[path] + WCS_COMMON,
@@ -280,7 +281,7 @@ PF_FORMATS = [
     ('d_n', 'ab%d%n', None), ('minusn', '%-n', None), ('lln', '%lln', None), ('zn', '%zn', None), ('pctn_n', '%%n%n', None),
 ]
 QUICK_PF = {'s', 'p2s', 'lw4s', 'd', 'z5d', 'p3d', 'x', 'c', 'pct', 's_d', 'p3d_d', 'p1s_s', 'n', 'ln', 'hhn', 'w5n', 'pctpctn', 'd_n'}
-J('B.printf.engine.q', ['C11', 'C03', 'C04', 'C08', 'C09', 'C05', 'C01'], 'B', 'harness/printffam.c', sources=PF_SRC, replay=True, unwind=70, object_bits=10, stubs=['stubs/libc_query.c'],
+J('B.printf.engine.q', ['C11', 'C03', 'C04', 'C08', 'C09', 'C05', 'C01'], 'B', 'harness/printffam.c', sources=PF_SRC, replay=True, unwind=70, object_bits=10, stubs=['stubs/libc_query.c'], quick_props=['C11', 'C03', 'C09'],
   variants=[{'label': lab, 'defines': ['FMT="%s"' % f] + (['ARGS=%s' % a] if a else [])} for lab, f, a in PF_FORMATS if lab in QUICK_PF] +
            [{'label': 'sn.' + lab, 'defines': ['ENTRY_SNPRINTF', 'FMT="%s"' % f, 'ARGS=%s' % a]} for lab, f, a in PF_FORMATS if lab in ('s', 'd', 's_d')],
   functions=['_sprintf_s_chk', '_vsprintf_s_chk', '_vsnprintf_s_chk', 'safec_vsnprintf_s', 'safec_out_buffer', 'safec_ntoa_long', 'safec_ntoa_format', 'safec_out_rev'],
@@ -289,5 +290,23 @@ J('B.printf.engine.full', ['C11', 'C03', 'C04', 'C08', 'C09', 'C05', 'C01'], 'B'
   variants=[{'label': lab, 'defines': ['FMT="%s"' % f] + (['ARGS=%s' % a] if a else [])} for lab, f, a in PF_FORMATS],
   functions=['_sprintf_s_chk', '_vsprintf_s_chk', '_vsnprintf_s_chk', 'safec_vsnprintf_s', 'safec_out_buffer', 'safec_ntoa_long', 'safec_ntoa_format', 'safec_out_rev'],
   bound='one concrete format per run (%d formats), ints |v| <= 99999, strings <= 4 chars, dmax 1..12' % len(PF_FORMATS), timeout=1800, tiers=('thorough',))
+
+# ---- C20: allocation failure at every position, no leak
+ALLOC_FLAGS = ['--malloc-may-fail', '--malloc-fail-null', '--memory-leak-check']
+ALLOC_KW = dict(all_props=['C20'])
+J('B.alloc.printf_ls', ['C20'], 'B', 'harness/allocfam.c', sources=PF_SRC, replay=False, all_props=['C20'], unwind=70, object_bits=10, cbmc_flags=ALLOC_FLAGS,
+  variants=[{'label': lab, 'defines': ['FN=1', 'FMT="%s"' % f]} for lab, f in (('ls', '%ls'), ('lw6ls', '%-6ls|'), ('w6ls', '%6ls'), ('p2ls', '%.2ls'))],
+  functions=['safec_vsnprintf_s (%ls path)', '_wcstombs_s_chk'], stubs=['stubs/libc_query.c'], timeout=1200,
+  bound='wide string of 3 characters, dmax 1..16, four %ls formats; every subset of the allocations fails; wcstombs assumed contract may fail',
+  assumptions=['C20: cbmc malloc model with --malloc-may-fail --malloc-fail-null (any subset of allocations fails)'])
+J('B.alloc.printf_L', ['C20'], 'B', 'harness/allocfam.c', sources=PF_SRC, replay=False, all_props=['C20'], unwind=70, object_bits=10, cbmc_flags=ALLOC_FLAGS,
+  variants=[{'label': lab, 'defines': ['FN=2', 'FMT="%s"' % f]} for lab, f in (('Lf', '%Lf|'), ('Le', '%Le|'), ('Lg', '%Lg|'), ('La', '%La|'))],
+  functions=['safec_vsnprintf_s (%L format copy paths)'], stubs=['stubs/libc_query.c'], timeout=1200,
+  bound='one long double directive followed by a literal (the format-copy path), dmax 1..16')
+for fn, nm, path in ((3, 'swprintf_s', 'src/wchar/swprintf_s.c'), (4, 'vswprintf_s', 'src/wchar/vswprintf_s.c'),
+                     (5, 'snwprintf_s', 'src/wchar/snwprintf_s.c'), (6, 'vsnwprintf_s', 'src/wchar/vsnwprintf_s.c')):
+    J('B.alloc.%s' % nm, ['C20'], 'B', 'harness/allocfam.c', sources=[path] + WCS_COMMON, defines=['FN=%d' % fn], replay=False, unwind=24, all_props=['C20'],
+      object_bits=10, cbmc_flags=ALLOC_FLAGS, functions=['_%s_chk' % nm], timeout=900, stubs=['stubs/libc_query.c'],
+      bound='dmax = 512 (the heap-allocated no-space probe), libc vswprintf assumed contract returning -1 or a count')
 
 BY_NAME = {j.name: j for j in JOBS}
